@@ -2,6 +2,7 @@ package sym
 
 import (
 	"go/types"
+	"time"
 	"strings"
 
 	"golang.org/x/tools/go/ssa"
@@ -314,6 +315,9 @@ func (x *fnExec) runBlock(p *Path, b *ssa.BasicBlock, idx int, deliver deliverFn
 		e.stats.Steps++
 		if e.stats.Steps > e.cfg.MaxSteps {
 			panic(e.abort("step budget exhausted (%d)", e.cfg.MaxSteps))
+		}
+		if e.stats.Steps&0xfff == 0 && !e.deadline.IsZero() && time.Now().After(e.deadline) {
+			panic(e.abort("wall-clock budget of %d s exhausted", e.cfg.TimeoutS))
 		}
 		ins := b.Instrs[idx]
 		switch in := ins.(type) {
